@@ -26,6 +26,19 @@ FIELDS = {
 }
 
 
+# number of records of a set whose hyperedge passes the order filter (fold-defined specification function)
+CNT = z3.Function("count_sel_t", z3.ArraySort(TK.sort(), T.B), T.I, T.B, T.I)
+_cs, _cx, _co, _cu = z3.Const("_cst", z3.ArraySort(TK.sort(), T.B)), z3.Const("_cxt", TK.sort()), z3.Int("_cot"), z3.Bool("_cut")
+TH.EXTRA.update({
+    "count_sel_t_empty (definition)": z3.ForAll([_co, _cu], CNT(z3.K(TK.sort(), z3.BoolVal(False)), _co, _cu) == 0,
+                                                patterns=[CNT(z3.K(TK.sort(), z3.BoolVal(False)), _co, _cu)]),
+    "count_sel_t_step (definition)": z3.ForAll([_cs, _cx, _co, _cu], z3.Implies(z3.Not(_cs[_cx]),
+        CNT(z3.Store(_cs, _cx, True), _co, _cu) == CNT(_cs, _co, _cu) +
+        z3.If(z3.If(_cu, TH.tlen(TK.snd(_cx)) - 1 <= _co, TH.tlen(TK.snd(_cx)) - 1 == _co), 1, 0)),
+        patterns=[CNT(z3.Store(_cs, _cx, True), _co, _cu)]),
+})
+
+
 def tm(k):
     return TK.fst(k)
 
@@ -96,6 +109,7 @@ VIEWS = {
     "weighted": lambda eng, p, h: h.fields["_weighted"],
     "KLEN": lambda eng, p, h, k: T.sv_int(TH.tlen(nd(k.t))),
     "ID": lambda eng, p, h, k: T.sv_int(h.fields["_edge_list"].val[k.t]),
+    "count_sel": lambda eng, p, h, S, o, u: T.sv_int(CNT(S.t, eng.coerce(o, T.INT).t, eng.truth(u, p))),
 }
 
 LAYOUT = Layout(CLS, FIELDS, aliases={"Key": "Pair[Int,Tup]"}, views=VIEWS, multi={"wf": wf, "view_eq": view_eq})
@@ -304,6 +318,22 @@ CONTRACTS = [
           "W": "implies(weighted(self), all(W(self, k) == (W(old(self), k) if (k in E(old(self)) and not (node in snd(k) and count(_done0, ID(old(self), k)) >= 1)) else 0) + (W(old(self), pair(fst(k), with_node(snd(k), node))) if (node not in snd(k) and strict(snd(k)) and len(snd(k)) >= 1 and pair(fst(k), with_node(snd(k), node)) in E(old(self)) and count(_done0, ID(old(self), pair(fst(k), with_node(snd(k), node)))) >= 1) else 0) for k in E(self)))",
           "NM_kept": "all(NM(self, n) == NM(old(self), n) for n in V(old(self)))",
           "weighted": "weighted(self) == weighted(old(self))"}}),
+    # counts by the order of the hyperedge (not of the (time, hyperedge) pair, the defect of the pinned tree)
+    C("num_edges", params={"order": "Opt[Int]", "size": "Opt[Int]", "up_to": "Bool"}, result="Int", pure=True, locals={"s": "Int"},
+      requires={"wf": "wf(self)"},
+      raises={"ValueError": "order is not None and size is not None"},
+      ensures={"all": "implies(order is None and size is None, result == card(E(self)))",
+               "by_order": "implies(order is not None, result == count_sel(self, E(self), order, up_to))",
+               "by_size": "implies(size is not None, result == count_sel(self, E(self), size - 1, up_to))"},
+      invariants={0: {"s": "s == count_sel(self, _done0, order, False)"},
+                  1: {"s": "s == count_sel(self, _done1, order, True)"}}),
+    C("is_uniform", params={}, result="Bool", pure=True, locals={"sz": "Opt[Int]", "uniform": "Bool"},
+      requires={"wf": "wf(self)"},
+      ensures={"result": "result == all(len(snd(k1)) == len(snd(k2)) for k1 in E(self) for k2 in E(self))"},
+      invariants={0: {"uniform": "uniform",
+                      "none": "(sz is None) == all(k not in _done0 for k in Key)",
+                      "same": "implies(sz is not None, all(len(snd(k)) == sz for k in _done0))",
+                      "witness": "implies(sz is not None, any(len(snd(k)) == sz for k in _done0))"}}),
     Contract("degree[TemporalHypergraph]", "hypergraphx/measures/degree.py", ["degree"], properties=["C03", "C08"],
       params={"hg": "Obj[TemporalHypergraph]", "node": "Node", "order": "Opt[Int]", "size": "Opt[Int]"}, result="Int", pure=True,
       requires={"wf": "wf(hg)"},
